@@ -258,11 +258,13 @@ def inv3(rep, mod, table):
               node=init)
 
 
-def inv4(rep, mod, table):
+def subscribe_on_all_exits(rep, mod, rule, only=None):
     pairs = (('_uncached_lookup', 'lookup', '_cache'),
              ('_uncached_lookupAll', 'lookupAll', '_mcache'),
              ('_uncached_subscriptions', 'subscriptions', '_scache'))
     for unc, _, _ in pairs:
+        if only is not None and unc not in only:
+            continue
         f = find_def(mod, 'AdapterLookupBase.' + unc)
         cfg = cfg_of(f)
         p = pred_of('self._subscribe(*required)')
@@ -281,8 +283,15 @@ def inv4(rep, mod, table):
         elif not okreq:
             detail = 'required is rebound to %s before _subscribe' % [
                 norm_src(r.value) for r in rebinds]
-        rep.check('INV-4', 'AdapterLookupBase.' + unc, ok and okreq, detail,
+        rep.check(rule, 'AdapterLookupBase.' + unc, ok and okreq, detail,
                   construct='subscribe', node=f)
+
+
+def inv4(rep, mod, table):
+    pairs = (('_uncached_lookup', 'lookup', '_cache'),
+             ('_uncached_lookupAll', 'lookupAll', '_mcache'),
+             ('_uncached_subscriptions', 'subscriptions', '_scache'))
+    subscribe_on_all_exits(rep, mod, 'INV-4')
     # _subscribe
     f = find_def(mod, 'AdapterLookupBase._subscribe')
     va = f.args.vararg.arg if f.args.vararg else None
@@ -409,7 +418,7 @@ def inv4(rep, mod, table):
                   node=f)
 
 
-def inv5(rep, mod, table):
+def inv5(rep, mod, table, rule='INV-5'):
     lb = find_def(mod, 'LookupBase')
     vb = find_def(mod, 'VerifyingBase')
     vms = methods_of(vb)
@@ -427,7 +436,7 @@ def inv5(rep, mod, table):
         site = 'VerifyingBase.' + name
         f = vms.get(name)
         if f is None:
-            rep.check('INV-5', site, False,
+            rep.check(rule, site, False,
                       'LookupBase.%s reads a cache field directly but '
                       'VerifyingBase does not override it with a _verify() '
                       'check' % name, construct='override', node=vb)
@@ -447,7 +456,7 @@ def inv5(rep, mod, table):
         okret = all(r.value is not None and
                     match('LookupBaseFallback.%s(self, $$a)' % name, r.value)
                     is not None for r in rets) and bool(rets)
-        rep.check('INV-5', site, ok and okargs and okret,
+        rep.check(rule, site, ok and okargs and okret,
                   '_verify() dominates the delegation to LookupBaseFallback.%s '
                   '(dominates=%s, args-unchanged=%s, returns-delegate=%s)'
                   % (name, ok, okargs, okret), construct='verify-first', node=f)
@@ -459,7 +468,7 @@ def inv5(rep, mod, table):
             continue
         bad = find_all(f, 'LookupBase._getcache($$a)') + \
             find_all(f, 'LookupBaseFallback._getcache($$a)')
-        rep.check('INV-5', 'LookupBase.' + name, not bad,
+        rep.check(rule, 'LookupBase.' + name, not bad,
                   'reaches the cache only through self._getcache / self.lookup '
                   '(dynamic dispatch, so the verifying override applies)',
                   construct='indirect', node=f)
@@ -485,7 +494,7 @@ def inv5(rep, mod, table):
                 detail = ('compares [r._generation for r in self._verify_ro] with '
                           'self._verify_generations and calls self.changed() on '
                           'any difference')
-    rep.check('INV-5', 'VerifyingBase._verify', ok, detail, construct='compare',
+    rep.check(rule, 'VerifyingBase._verify', ok, detail, construct='compare',
               node=f)
     # snapshots taken in changed()
     ch = vms.get('changed')
@@ -495,7 +504,7 @@ def inv5(rep, mod, table):
     ok = must_on_all_paths(cfg, a) and must_on_all_paths(cfg, b)
     okorder = all(cfg.dominated_by(n, a) for n in cfg.nodes
                   if n.ast is not None and b(n))
-    rep.check('INV-5', 'VerifyingBase.changed', ok and okorder,
+    rep.check(rule, 'VerifyingBase.changed', ok and okorder,
               're-snapshots _verify_ro = registry.ro[1:] and then the '
               'generations of exactly those registries (both=%s, order=%s)'
               % (ok, okorder), construct='snapshot', node=ch)
